@@ -6,6 +6,7 @@
 //! A command `foo-bar` lives in `src/cmd_foo_bar.rs` and exposes
 //! `pub fn run(args: &[String], lines: &mut dyn Iterator<Item = String>, out: &mut dyn Write)`.
 
+pub mod gen_sv;
 pub mod util;
 include!(concat!(env!("OUT_DIR"), "/cmds.rs"));
 
